@@ -6,6 +6,7 @@ traced value ("D"); every other parameter is bound to `U` (some valid value: X, 
 (non-data parameters, optional data parameters other than p) -- so the trace is the one of a call that passes
 X, y, p and defaults otherwise.  The result is the ordered list of abstract actions applied to p:
 
+  MayRefit   a call that does not receive the traced argument (re)fits a model on the other arguments
   CheckFitted | CheckY params_validated | CheckX nf cats | CheckArray | CheckLen | CheckXy          validators (utils.check_*)
   NeedsArray what                       an ndarray attribute (.ravel(), .astype(), .shape) read off the argument
                                         as passed: AttributeError for a list / tuple, harmless for an ndarray
@@ -245,6 +246,20 @@ class Tracer:
                     return True
         return False
 
+    def may_refit(self, meth, depth=0):
+        """does this method (transitively) fit a model -- .fit(..) / .gridsearch(..) / ._pirls(..) on self or a copy?"""
+        r = self.k.resolve(self.cls, meth)
+        if r is None or depth > 4:
+            return False
+        for n in ast.walk(r[1]):
+            if isinstance(n, ast.Call) and isinstance(n.func, ast.Attribute):
+                if n.func.attr in ('fit', 'gridsearch', '_pirls'):
+                    return True
+                if isinstance(n.func.value, ast.Name) and n.func.attr != meth and self.k.resolve(self.cls, n.func.attr) is not None \
+                        and self.may_refit(n.func.attr, depth + 1):
+                    return True
+        return False
+
     def self_call(self, call, env, fn_cls):
         """-> (method name, after) if the call is self.m(..), <alias of self>.m(..) or super(..).m(..)"""
         f = call.func
@@ -282,6 +297,8 @@ class Tracer:
                         self.vp = True
                     if sc and sc[1] is None and self.guarded(sc[0]):
                         acts.append(('CheckFitted',))
+                    if sc and sc[1] is None and self.may_refit(sc[0]):
+                        acts.append(('MayRefit',))
             try:
                 return acts, C(ast.literal_eval(node)), False
             except Exception:
@@ -450,6 +467,8 @@ class Tracer:
                     self.vp = True
                 if r is not None and after is None and self.guarded(meth):
                     acts.append(('CheckFitted',))
+                if r is not None and after is None and self.may_refit(meth):
+                    acts.append(('MayRefit',))
                 return acts, U, False
             if r is None:
                 return acts + [('Use', 'call ' + meth)], U, True
@@ -875,7 +894,7 @@ def qs(s):
 
 def act_coq(a):
     t = a[0]
-    if t in ('CheckFitted', 'CheckArray', 'CheckLen', 'CheckXy'):
+    if t in ('CheckFitted', 'CheckArray', 'CheckLen', 'CheckXy', 'MayRefit'):
         return t
     if t == 'CheckY':
         return '(CheckY %s)' % ('true' if a[1] else 'false')
